@@ -169,7 +169,46 @@ def r6_recur_tail_check_present(ctx):
     ctx.ob("C01.R6", f"{ANA}::_assert_no_recur applied at {len(uses2)} site(s)", ANA, norec.lineno, len(uses2) >= 2, "" if len(uses2) >= 2 else "non-tail positions are no longer checked for recur")
 
 
+@rule("C01.R7", floor=45)
+def r7_context_dependent_work_happens_inside_its_context(ctx):
+    """The analyzer and the generator keep the syntactic position (expr_pos / stmt_pos / parent
+    position), the symbol table, the recur point and similar facts in context managers of `ctx`.
+    Work that reads `ctx` must therefore run while the block is active: a generator expression,
+    map()/filter() call or lambda that mentions `ctx`, created inside `with ctx.X():`, has to be
+    consumed before the block ends (eager constructor, unpacking, for loop, *-spread); one that is
+    bound to a name, returned, or stored in a node is evaluated later, under whatever position and
+    scope happen to be current -- the form's meaning would then depend on where it sits."""
+    n = 0
+    seen: dict = {}
+    for rel in (ANA, GEN):
+        tree = ctx.py(rel)
+        for w in sorted((x for x in ast.walk(tree) if isinstance(x, (ast.With, ast.AsyncWith))), key=lambda x: x.lineno):
+            if not isinstance(w, (ast.With, ast.AsyncWith)):
+                continue
+            items = [P.un(i.context_expr) for i in w.items]
+            if not any(i.startswith("ctx.") for i in items):
+                continue
+            n += 1
+            fn = P.enclosing_func(w)
+            esc = list(P.lazy_escapes(w, "ctx"))
+            why = ""
+            if esc:
+                node, how = esc[0]
+                why = (f"`{P.un(node)[:70]}` (line {node.lineno}) reads ctx lazily and {how}: it runs after `with {', '.join(items)}` has been left, "
+                       "so sub-forms are analysed/generated under the wrong position or scope")
+            key = f"{rel}::{fn.name if fn else '<module>'}::with {', '.join(items)}"[:150]
+            seen[key] = seen.get(key, 0) + 1
+            ctx.ob("C01.R7", f"{key} #{seen[key]}", rel, w.lineno, not esc, why)
+    if n == 0:
+        raise AnalysisError("no `with ctx.*` blocks found in analyzer/generator")
+
+
 SELFTEST = [
+    {"name": "recur arguments analysed after expr_pos was left", "file": ANA, "expect": "C01.R7",
+     "old": "        exprs = vec.vector(_analyze_form(form, ctx) for form in form.rest)\n\n    return Recur(form=form, exprs=exprs, loop_id=loop_id, env=ctx.get_node_env())",
+     "new": "        exprs = (_analyze_form(expr, ctx) for expr in form.rest)\n\n    return Recur(form=form, exprs=vec.vector(exprs), loop_id=loop_id, env=ctx.get_node_env())"},
+    {"name": "twin: recur arguments collected with a list comprehension", "file": ANA, "expect": None,
+     "old": "        exprs = vec.vector(_analyze_form(form, ctx) for form in form.rest)\n", "new": "        exprs = vec.vector([_analyze_form(expr, ctx) for expr in form.rest])\n"},
     {"name": "truthiness by equality", "file": GEN, "expect": "C01.R1", "first": True,
      "old": "                    left=ast.Constant(False),\n                    ops=[ast.Is()],", "new": "                    left=ast.Constant(False),\n                    ops=[ast.Eq()],"},
     {"name": "branches not swapped", "file": GEN, "expect": "C01.R1",
